@@ -7,7 +7,7 @@ CONSTANTS
   BO = 3
   IVALS <- IvOne
   ASIS = {}
-  ENV = {"complete", "flip", "stop"}
+  ENV = {"complete", "flip", "expire", "stop"}
 INVARIANT InvFixed
 PROPERTY Live
 CHECK_DEADLOCK FALSE
